@@ -18,7 +18,7 @@ TSub == /\ Consume("Sub")
            \/ (Ev.k = "err" /\ SubErr(Ev.i, Ev.q))
         /\ Done
 TRun == /\ Consume("Run") /\ Run
-        /\ out'.t = Ev.t /\ out'.q = Ev.q /\ out'.state = Ev.state /\ Done
+        /\ out'.t = Ev.t /\ out'.q = Ev.q /\ out'.state = Ev.state /\ out'.ep = Ev.ep /\ Done
 TNext == TNew \/ TAdd \/ TSub \/ TRun
 TSpec == TInit /\ [][TNext]_<<vars, l>>
 =============================================================================
